@@ -162,7 +162,8 @@ TEXT = {
     "C06": _t("spec/SubQueue.tla is model-checked for TriggerKept / DeferredOnlyWhileQueueing / Rechecked (a trigger is never forgotten and leads to an access request or the end of the subscription); SubQueueTrace.tla checks on every gateway trace that a re-check is never started while queueing, is deferred only while queueing and that the deferred flag equals the model's. At the boundary, after each processed trigger on a directly subscribed resource: an access request sent after the trigger follows, nothing handed over after the trigger is delivered before the verdict, a refusal ends in an unsubscribe event with the reason; after a token change every direct subscription is re-checked.",
               "TLC exhaustive on SubQueue.tla + per-note conformance (SubQueueTrace.tla) + observer rules on gateway traces"),
     "C07": _t("Pending-request ledger: no response for an unknown id, none twice, none missing at quiescence, error shape.", TECH),
-    "C08": _t("Per (connection, rid) counter of confirmed direct subscriptions compared with the gateway's snapshot at quiescence; every unsubscribe outcome predicted from the counter.", TECH),
+    "C08": _t("spec/DirectCount.tla states the counter design (count at receipt, give back on failure / get, limit) with Exact, UnsubRule and LimitHeld; TLC shows them for the repaired design and shows UnsubRule violated for the code-shaped variant - finding KF-H as a named deviation. On the real gateway: per (connection, rid) counter of confirmed direct subscriptions compared with the gateway's snapshot at quiescence; every unsubscribe outcome predicted from the counter; the limit-256 schedule.",
+              "TLC exhaustive on DirectCount.tla (design, both variants) + TLC-generated schedules replayed on the real gateway, traces validated by the observer spec"),
     "C09": _t("MQ boundary rules (get only under an established event subscription, no duplicate subscription), use count = subscribers at quiescence, nothing left after the (fake-time) eviction delay, gauges zero.", TECH),
     "C10": _t("Every client frame scanned for every live connection id; every connection-bound request must carry the id of a live connection and its token.", TECH),
     "C11": _t("Disconnects at arbitrary points of the schedules; after the connection's conn subscription is removed no request may carry its id, it must be gone from the snapshot, use counts must match subscribers.", TECH),
@@ -338,6 +339,34 @@ def ressub_model(ctx):
 
 PROPS["C12"] = dict(run=tables.combine(ressub_model, tables.tables_run(["pattern", "coldiff", "modeldiff"], "reset matching / diff"),
                                        gateway_run(["stream", "win-load", "win-alias"], ["mreq", "cev"], also=("C01",))))
+
+
+def directcount_model(ctx):
+    """Exhaustive TLC run of spec/DirectCount.tla: the code-shaped variant must violate UnsubRule (finding KF-H), the repaired design must pass."""
+    import os, shutil
+    from .common import SPEC, tlc, tlc_stats, MachineryError
+    d = os.path.join(ctx.workdir, "directcount-mc")
+    os.makedirs(d, exist_ok=True)
+    shutil.copy(os.path.join(SPEC, "DirectCount.tla"), d)
+    lim, req = (3, 5) if ctx.tier == "quick" else (4, 8)
+    def cfg(rep):
+        with open(os.path.join(d, "DirectCount.cfg"), "w") as f:
+            f.write("SPECIFICATION Spec\nCONSTANTS\n Limit = %d\n MaxReq = %d\n Repaired = %s\nINVARIANTS Exact UnsubRule LimitHeld\nCHECK_DEADLOCK FALSE\n" % (lim, req, rep))
+    cfg("TRUE")
+    p = tlc("DirectCount.tla", d, [], timeout=1800, workers=4)
+    if "No error has been found" not in p.stdout:
+        raise MachineryError("DirectCount.tla (Repaired) does not satisfy its own properties (model bug):\n" + p.stdout[-2000:])
+    g, dist = tlc_stats(p.stdout)
+    cfg("FALSE")
+    p2 = tlc("DirectCount.tla", d, [], timeout=1800, workers=4)
+    if "Invariant UnsubRule is violated" not in p2.stdout:
+        raise MachineryError("DirectCount.tla with Repaired = FALSE should violate UnsubRule (finding KF-H):\n" + p2.stdout[-1500:])
+    cov = dict(states=dist, transitions=g, samples=[{"model": "spec/DirectCount.tla Limit=%d MaxReq=%d: Repaired=TRUE satisfies Exact, UnsubRule, LimitHeld; Repaired=FALSE (the code: unsubscribe compared with a count that includes in-flight requests) violates UnsubRule - finding KF-H as a named deviation" % (lim, req)}],
+               rule="exhaustive TLC on DirectCount.tla (design level); the code is judged by the observer's C08 rules on replayed schedules, with KF-H attributed by its signature", exhaustive=False)
+    return dict(coverage=cov, violations=[], level="model_checking", assumptions=[])
+
+
+PROPS["C08"] = dict(run=tables.combine(directcount_model, gateway_run(["gc", "cache", "win-gc", "win-evict"], ["cres"])))
 
 PROPS["C19"] = dict(run=tables.combine(throttle_model, gateway_run(["thr-ref1", "thr-ref2", "thr-reset1", "thr-reset2"], ["note", "mreq"])))
 TEXT["C19"] = _t("spec/Throttle.tla is model-checked exhaustively (bound, saturation, FIFO hand-over, every added callback eventually starts under any answer order); the real Throttle is driven directly and every Add/Done validated against it; at system level the thrAdd/thrDone notes of replayed schedules with reset/reference throttles of 1 and 2 are checked against the same transition rules, the limit, and emptiness at quiescence.",
